@@ -5,6 +5,7 @@ import (
 	"context"
 	"fmt"
 	"io"
+	"reflect"
 	"strconv"
 	"strings"
 
@@ -168,7 +169,7 @@ func (p *Parser) ParseStatements(ctx context.Context) ([]ast.Statement, error) {
 		}
 
 		stmt := p.parseStatement()
-		if stmt != nil {
+		if !isNilStatement(stmt) {
 			// Check for PARALLEL WITH to chain statements
 			if p.currentIs(token.PARALLEL) && p.peekIs(token.WITH) {
 				stmt = p.parseParallelWith(stmt)
@@ -193,6 +194,17 @@ func (p *Parser) ParseStatements(ctx context.Context) ([]ast.Statement, error) {
 	return statements, nil
 }
 
+// isNilStatement reports whether stmt is nil or holds a nil pointer: the statement parsers
+// return nil pointers of their concrete type after a syntax error, and such a pointer stored
+// in the ast.Statement interface no longer compares equal to nil.
+func isNilStatement(stmt ast.Statement) bool {
+	if stmt == nil {
+		return true
+	}
+	v := reflect.ValueOf(stmt)
+	return v.Kind() == reflect.Ptr && v.IsNil()
+}
+
 // parseParallelWith parses PARALLEL WITH clauses to chain statements
 func (p *Parser) parseParallelWith(first ast.Statement) *ast.ParallelWithQuery {
 	parallel := &ast.ParallelWithQuery{
@@ -204,7 +216,7 @@ func (p *Parser) parseParallelWith(first ast.Statement) *ast.ParallelWithQuery {
 		p.nextToken() // skip PARALLEL
 		p.nextToken() // skip WITH
 		stmt := p.parseStatement()
-		if stmt != nil {
+		if !isNilStatement(stmt) {
 			parallel.Statements = append(parallel.Statements, stmt)
 		}
 	}
